@@ -9,7 +9,6 @@ use crate::TransformConfig;
 use std::cell::RefCell;
 use std::rc::Rc;
 use std::collections::{HashMap, HashSet};
-use std::time::{SystemTime, UNIX_EPOCH};
 
 use rand::prelude::*;
 use rand_pcg::Pcg32;
@@ -142,6 +141,8 @@ pub struct TransformerContext {
     pub in_specs: bool,
     /// The event-representation of the entire input SVG
     pub events: Vec<InputEvent>,
+    /// ... and a hash of them, from which the id for local styles derives
+    events_hash: u64,
     /// id used by top-level SVG element if local_styles is true
     pub local_style_id: Option<String>,
     /// The previous element as written (before its attributes were evaluated)
@@ -182,6 +183,7 @@ impl Default for TransformerContext {
             real_svg: false,
             in_specs: false,
             events: Vec::new(),
+            events_hash: 0,
             config: TransformConfig::default(),
         }
     }
@@ -411,18 +413,10 @@ impl TransformerContext {
     /// Change settings in the middle of a document: the random sequence carries on
     /// (a new `seed` is for the caller to apply with `seed_rng()`).
     pub fn update_config(&mut self, config: TransformConfig) {
-        if config.use_local_styles {
-            // randomise the local id to avoid conflicts with other SVG
-            // elements in the same (e.g. HTML) document.
-            let now_seed = SystemTime::now()
-                .duration_since(UNIX_EPOCH)
-                .unwrap()
-                .as_micros() as u64;
-            let mut rng = Pcg32::seed_from_u64(now_seed);
-            self.local_style_id = Some(format!("svgdx-{:08x}", rng.random::<u32>()))
-        } else {
-            self.local_style_id = None;
-        }
+        self.local_style_id = match config.use_local_styles {
+            true => Some(self.local_style_id_for(config.seed)),
+            false => None,
+        };
         self.config = config;
     }
 
@@ -464,7 +458,24 @@ impl TransformerContext {
     }
 
     pub fn set_events(&mut self, events: Vec<InputEvent>) {
+        // (FNV-1a: the same for the same document wherever and whenever it is transformed)
+        let mut hash: u64 = 0xcbf29ce484222325;
+        for byte in events.iter().flat_map(|ev| ev.content_bytes().iter().chain(&[0u8])) {
+            hash = (hash ^ *byte as u64).wrapping_mul(0x100000001b3);
+        }
+        self.events_hash = hash;
         self.events = events;
+        if self.local_style_id.is_some() {
+            self.local_style_id = Some(self.local_style_id_for(self.config.seed));
+        }
+    }
+
+    /// The id which scopes local styles: it differs between documents, to avoid
+    /// conflicts with other SVG elements in the same (e.g. HTML) document, and is
+    /// the same whenever (and through whichever front-end) a document is transformed.
+    fn local_style_id_for(&self, seed: u64) -> String {
+        let mut rng = Pcg32::seed_from_u64(self.events_hash ^ seed);
+        format!("svgdx-{:08x}", rng.random::<u32>())
     }
 
     pub fn get_original_element(&self, elref: &ElRef) -> Option<&SvgElement> {
